@@ -132,6 +132,16 @@ FLOORS = {
         "K4": 1,
         "I10": 1,
         "I11": 2
+    },
+    "C02": {
+        "ROT": 3,
+        "T3": 9
+    },
+    "C03": {
+        "T11": 1,
+        "T7": 2,
+        "T10": 1,
+        "T5": 2
     }
 }
 
@@ -232,6 +242,9 @@ def c15(prog, rep):
     O.rule_a7(prog, rep, C.C11_UNITS)
     O.rule_a8(prog, rep, C.C11_UNITS)
     O.rule_m3(prog, rep, om, C.C11_UNITS)
+    O.rule_a9(prog, rep, units)
+    from . import bufrules as BW
+    BW.rule_fmt_complete(prog, rep, units)      # a failed growth of the formatting buffer must not be taken for a complete text
     rep.explanation = (
         'Fault-path discipline in the nine container units (and qinternal.h macros as expanded there), all CFG paths with '
         'path-sensitive value tracking: A1 every allocation result (malloc/calloc/realloc/strdup/qmemdup/qstrdupf and repo '
@@ -440,6 +453,8 @@ def c10(prog, rep):
 def c18(prog, rep):
     from . import hashrules as H
     H.rule_c18(prog, rep)
+    from . import bitlaws as BL
+    BL.rule_codec_purity(prog, rep, rid='H9', unit='src/utilities/qhash.c', what='hash functions')
     rep.explanation = (
         'Agreement with the published algorithms as value graphs, decided on the AST without computing any hash: each function is '
         'turned by forward substitution (helpers inlined, const locals substituted, rotates recognised, commutative operands '
@@ -536,6 +551,48 @@ def c09(prog, rep):
     rep.assumptions += ['sequence behaviour over histories is not decided']
 
 
+def c02(prog, rep):
+    from . import llrb as LL, tree as T
+    prog.unit(T.UNIT)
+    LL.rule_rot(prog, rep)
+    res = T.rule_t3(prog, rep)
+    T.rule_a4(prog, rep, res, rid='T3-root')
+    T.rule_fixup_bypass(prog, rep, rid='T9')
+    rep.explanation = (
+        'Structural necessary conditions of "stays a valid left-leaning red-black tree", not validity of every reachable tree: ROT '
+        'the three restructuring primitives (rotate_left, rotate_right, flip_color), evaluated symbolically as straight-line heap '
+        'transformations over distinct symbolic nodes with helpers inlined, are exactly the published transformations (link moves, '
+        'colour hand-over old-root -> new-root / old-root := red, negation of the three colours, return value, no other node field '
+        'written); T3 every rotation / fix-up / recursive result is stored back into the link that supplied the argument; T3-root the '
+        'public mutators store the returned root and blacken it on every path; T9 no return between a recursive descent and the '
+        'way-up repairs. Which repairs are applied in which order (the 2-3-4 variant of this library differs from the textbook) and '
+        'the invariants over reachable shapes are not decided.')
+    rep.assumptions += ['distinct access paths from the subtree root denote distinct nodes (tree shape)',
+                        'colour/black-height/search-order invariants over reachable trees are not decided']
+
+
+def c03(prog, rep):
+    from . import tree as T
+    prog.unit(T.UNIT)
+    T.rule_t11(prog, rep)
+    T.rule_t7(prog, rep)
+    T.rule_t7b(prog, rep)
+    T.rule_t10(prog, rep)
+    T.rule_t5(prog, rep)
+    T.rule_t5c(prog, rep)
+    rep.explanation = (
+        'Protocol clauses of the stackless walk (epoch stamps + parent links), not "every key exactly once in ascending order" over '
+        'histories: T11 the function that advances the 8-bit traversal id detects the wrap (test against 0 after the increment) and on '
+        'the wrap clears the mark of every node through a function that assigns 0 to the mark and recurses into both subtrees - so marks '
+        'of earlier walks and the zero mark of new nodes never equal a live id; T7 every end-of-walk exit of the walker advances the id, '
+        'and no other public operation does; T10 a node is stamped only on paths that deliver it; T5/T5c every climb through the parent '
+        'links, and every descent that records them, is preceded on all paths by the reset of the root\'s parent link (continuation of '
+        'a walk from the caller\'s cursor exempt). The visiting order (left subtree, node, right subtree) and the behaviour over '
+        'histories are not decided.')
+    rep.assumptions += ['the table is not modified during a walk (as the property states)',
+                        'the in-order visiting protocol of the walker loop is not decided']
+
+
 def c06(prog, rep):
     from . import harrmap as HM, hasharr as HA
     HM.rule_k1(prog, rep)
@@ -544,6 +601,7 @@ def c06(prog, rep):
     HM.rule_k4(prog, rep)
     HA.rule_i10(prog, rep)
     HA.rule_i11(prog, rep)
+    HA.rule_i12(prog, rep)
     rep.explanation = (
         'Structural clauses of "exact bounded map with exact space accounting" in qhasharr.c; the map behaviour over histories, the '
         'fit boundary and the placement branch taken depend on the runtime occupancy pattern and are not decided. K1: every chunk-loop '
@@ -648,6 +706,8 @@ PROPS = {
     'C04': dict(fn=c04, level='other'),
     'C07': dict(fn=c07, level='other'),
     'C06': dict(fn=c06, level='other'),
+    'C02': dict(fn=c02, level='other'),
+    'C03': dict(fn=c03, level='other'),
     'C16': dict(fn=c16, level='other'),
     'C11': dict(fn=c11, level='other'),
     'C12': dict(fn=c12, level='other'),
